@@ -114,7 +114,8 @@ ParserDone(p0) ==
   LET a == Add(p0.sub, p0.tmp)
       b == IF a.ok THEN Add(p0.total, a.self) ELSE [ok |-> FALSE, self |-> p0.total, number |-> a.self]
       p1 == [p0 EXCEPT !.total = b.self, !.sub = b.number, !.tmp = a.number]
-  IN IF p1.hang THEN Fail(p1, "POINT")
+  IN IF ~(a.ok /\ b.ok) THEN [ok |-> FALSE, p |-> p1]            \* the groups do not add up: no separator error is reported (fix of C15)
+     ELSE IF p1.hang THEN Fail(p1, "POINT")
      ELSE IF p1.comma /\ p1.dl # 3 THEN Fail(p1, "COMMA")
      ELSE [ok |-> a.ok /\ b.ok, p |-> p1]
 
